@@ -228,6 +228,13 @@ def chunk_blobs(chunk, acc):
     for ln in sorted(set(range(0, 70)) | {k - 11}):
         pt = (b"\xde\xad\xbe\xef" + good[4:] + bytes(lcg(200, 9)))[:ln]
         blobs.append((f"wrong-magic-{ln}", pkcs1_encrypt(key, pt, ln)))
+    # no magic, and a size field that announces more (or fewer) info bytes than are present
+    for ln in (59, 60, 64, 100, k - 11):
+        for size in (0xFFFF, 0xFFFFFFFF, 52, 0, 50):
+            pt = (b"\xde\xad\xbe\xef" + struct.pack(">I", size) + good[8:] + bytes(lcg(200, 11)))[:ln]
+            blobs.append((f"wrong-magic-size{size:x}-{ln}", pkcs1_encrypt(key, pt, ln + size % 97)))
+        blobs.append((f"ff-{ln}", pkcs1_encrypt(key, b"\xff" * ln, ln)))
+        blobs.append((f"A-{ln}", pkcs1_encrypt(key, b"A" * ln, ln + 1)))
     for ln in (0, 1, 3):  # shorter than the magic itself
         blobs.append((f"short-{ln}", pkcs1_encrypt(key, good[:ln], 77 + ln)))
     for name, blob in blobs:
